@@ -46,14 +46,14 @@ _p("C19", "other",
    "Deductive part: Rect.intersection/union/empty and the bounding-box glue are proved for all real inputs; clip_to_viewbox is run on a tree model "
    "(viewbox.clip: outside removed, inside left alone, straddling intersected with bbox INTERSECT viewBox under the right rules) and the CLI flag by cli.trace. The geometric claim itself (exact clipping, tight bounds) rests on the assumed pathops "
    "contract and is sampled by a bounded component (labelled bounded).",
-   [PATHOPS, LXML, CPY])
+   [PATHOPS, LXML, CPY, RE])
 
 _p("C09", "proof",
    "Every rewrite callback of svg_types.py (explicit lines, relative/absolute, snapping, S/T expansion, arc replacement glue, move), "
    "_next_pos, _move_endpoint and the rect/ellipse/circle/line outlines are executed symbolically from /repo's source for each of the 20 "
    "commands with symbolic arguments and pen, and compared with the SVG 8.3 path semantics; SVGPath.walk lifts the per-command results to "
    "sequences of any length by a loop invariant. Polygon/polyline text and the exhaustive short-sequence enumeration are a bounded cross-check.",
-   [BRIDGE, CPY, MATH])
+   [BRIDGE, CPY, MATH, RE])
 
 _p("C12", "proof",
    "arc_to_cubic, _arc_to_cubic and the EllipticalArc methods are executed symbolically from /repo's source; case split, radii correction "
@@ -89,7 +89,7 @@ _p("C04", "other",
    "doubling, the opacity/paint/id bookkeeping of SVG._stroke with the stroke drawn above the fill, the tolerance, and - by running _simplify on a tree model (simplify.trace) - stroke in the "
    "shape's own coordinates before the CTM is applied, stroke settings reset before writing back. NOT decided by any contract within reach: the outline geometry itself (caps, joins, miter limit, dash phase, stroker resolution) "
    "is Skia's stroker; a bounded component samples it on polylines (labelled bounded).",
-   [PATHOPS, BRIDGE, CPY, LXML])
+   [PATHOPS, BRIDGE, CPY, LXML, RE])
 
 _p("C05", "other",
    "Proved (all values): the inheritance handlers, their dispatch table against the SVG property index, _inherit_attrib / _attrib_to_pass_on, group "
@@ -132,7 +132,7 @@ _p("C08", "other",
    "Proved on the call trace / tree model: orphan sweep ordering (pipeline.trace, simplify.trace), ids stripped from use instances (use.instance), fresh id for every gradient copy "
    "(gradient.transformed), ids cleared when a stroked shape is split (C04). Unique ids / no dangling url / no unused gradient on whole "
    "documents is checked by a reference-graph oracle on sharing patterns (bounded, labelled).",
-   [LXML, CPY])
+   [LXML, CPY, RE])
 
 _p("C01", "other",
    "Proved: path-data target forms (absolute, no shorthand, no H/V, no arcs after arcs_to_cubics; Skia emits only M/L/Q/C/Z), kept-group attributes and "
@@ -141,12 +141,12 @@ _p("C01", "other",
    "cleanup, one master defs of gradients only, dissolved groups, no stroke / transform / clip-path left on written paths - for the tree shapes the contracts "
    "enumerate, over a model of lxml. The element-path patterns of the final gate are decided against the grammar for all strings (gate.allowlist, automata back end: nothing outside the grammar's element paths is accepted). For arbitrary trees the conversion itself is NOT decided deductively: an independent grammar oracle on generated documents x options is "
    "the bounded part.",
-   [LXML, PATHOPS, BRIDGE, CPY])
+   [LXML, PATHOPS, BRIDGE, CPY, RE])
 _p("C02", "other",
    "Proved: the affine algebra and viewport mapping (C11), shape->path outlines (C09), the pathops transform glue; the composition order (element CTM, use, nested svg "
    "viewport, ancestors in _simplify) by running _resolve_use, _unnest_svg, _simplify on a tree model with symbolic matrices. The rendering equivalence of whole documents is the bounded part: "
    "an independent reference evaluator compares composited colours at sample points of generated structural documents.",
-   [LXML, PATHOPS, CPY, MATH])
+   [LXML, PATHOPS, CPY, MATH, RE])
 _p("C03", "other",
    "Proved relative to pathops: intersection/union glue folds operands each under its own rule (C13), _resolve_clip_path and _simplify run on a tree model: clip "
    "region = union of placed children intersected with the nested clip, clips accumulate along the ancestor chain each resolved with the CTM of its carrier, the "
@@ -158,7 +158,7 @@ _p("C06", "other",
    "_apply_gradient_translation against the contract of decompose_translation, _transformed_gradient (own transform -> bbox -> CTM, fresh id), and the order in "
    "_simplify (copies derived before the sources are rounded); whole-document "
    "gradient colour equivalence at interior points is the bounded part with an independent gradient evaluator.",
-   [LXML, PATHOPS, CPY, MATH])
+   [LXML, PATHOPS, CPY, MATH, RE])
 
 _p("C10", "other",
    "Proved for ALL strings over the path alphabet (automata back end, pyvc/rx.py): _FLOAT_RE.match ends exactly at the longest SVG-number prefix, _BOOL_RE is one binary digit, "
